@@ -339,6 +339,7 @@ class Dense(ABC):
         ...
 
     def __getattr__(self, attr: str) -> Any:
+        if attr == '_row': raise AttributeError(attr) #not set yet (e.g. while unpickling), looking it up again would recurse
         return getattr(self._row, attr)
 
     def __eq__(self, o) -> bool:
@@ -356,6 +357,7 @@ class Dense_:
     __slots__=('_row')
 
     def __getattr__(self, attr: str) -> Any:
+        if attr == '_row': raise AttributeError(attr) #not set yet (e.g. while unpickling), looking it up again would recurse
         return getattr(self._row, attr)
 
     def __eq__(self, o) -> bool:
@@ -408,6 +410,7 @@ class Sparse(ABC):
         ...
 
     def __getattr__(self, attr: str) -> Any:
+        if attr == '_row': raise AttributeError(attr) #not set yet (e.g. while unpickling), looking it up again would recurse
         return getattr(self._row, attr)
 
     def __eq__(self, o: object) -> bool:
@@ -425,6 +428,7 @@ class Sparse_:
     ##Therefore we keep Sparse around for public API checks but internally we use Sparse_ for inheritance.
 
     def __getattr__(self, attr: str) -> Any:
+        if attr == '_row': raise AttributeError(attr) #not set yet (e.g. while unpickling), looking it up again would recurse
         return getattr(self._row, attr)
 
     def __eq__(self, o: object) -> bool:
